@@ -343,6 +343,7 @@ def run(F, R):
                  'a RefCell guard obtained here may still be alive at an await: a re-entrant borrow from another task on the same connection panics (BorrowMutError)', b.loc(bb))
     R.ob('C16.refcell', 'all-coroutines', True, 'examined %d coroutine bodies for RefCell guards alive across a Yield' % ncor)
     R.floor('C16.refcell', 'coroutine bodies', ncor, 120)
+    reentrancy(F, R)
     # sibling rule on the PayloadChunk arm
     for d in all_dispatchers(F):
         b = d.call
@@ -362,3 +363,102 @@ def run(F, R):
         R.ob('C16.arms', '%s|PayloadChunk|absent-sender=>UnexpectedPayload' % d.name, ok,
              'sibling rule: a payload chunk without a payload stream must end in ProtocolError::Decode(UnexpectedPayload) (servers do; a client that unwraps panics)', None)
         # no diverging (panicking) call is reachable in any arm without being enumerated above: covered by C16.sites
+
+
+def cell_key(body, op):
+    """(owner type, field) of the RefCell a borrow()/borrow_mut() call is applied to."""
+    p = op_place(op)
+    for _ in range(6):
+        if p is None:
+            return None
+        flds = [e for e in place_proj(p) if isinstance(e, dict) and 'f' in e]
+        if flds:
+            return (flds[-1].get('adt') or '?', str(flds[-1]['f']))
+        ds = [d for d in body.whole_defs(p['l']) if d[0] in body.live]
+        if len(ds) != 1:
+            return None
+        d = ds[0]
+        if d[2] == 'assign' and d[3]['rv']['k'] == 'ref':
+            p = d[3]['rv']['place']
+        elif d[2] == 'assign' and d[3]['rv']['k'] == 'use':
+            p = op_place(d[3]['rv']['op'])
+        elif d[2] == 'call' and APATH_TRANSPARENT.search(callee_name(d[3]) or '') and d[3]['args']:
+            p = op_place(d[3]['args'][0])
+        else:
+            return None
+    return None
+
+
+def reentrancy(F, R):
+    """A RefCell of the connection state is never borrowed again while a guard on it is alive: for every borrow()/borrow_mut()
+    in the crate, no call made while the guard lives reaches (through resolved callees and closures handed to that call)
+    another borrow of the same cell that conflicts with it (any pairing but shared/shared). Such a nesting is a BorrowMutError
+    panic on whatever peer packet drives that path. Cells are identified by owner type and field; application callbacks
+    (dyn Fn) are not followed."""
+    direct = {}
+    for p, b in F.bodies.items():
+        lst = []
+        for bi, t in b.calls_to(panics.BORROW_CALL):
+            k = cell_key(b, t['args'][0]) if t['args'] else None
+            if k:
+                lst.append((bi, 'mut' if (callee_name(t) or '').endswith('borrow_mut') else 'shared', k, t))
+        direct[p] = lst
+    # transitive summaries over resolved local callees (closures built in a body count as called by it)
+    trans = {p: {(k, kind) for bi, kind, k, t in lst} for p, lst in direct.items()}
+    callees = {}
+    for p, b in F.bodies.items():
+        cs = set()
+        for bi, t in b.calls():
+            for q in F.call_targets(t, expand_traits=False):
+                if q in F.bodies and not F.bodies[q].is_coroutine:
+                    cs.add(q)
+        for c in F.children.get(p, []):
+            cp = c.path if hasattr(c, 'path') else c
+            if cp in F.bodies and not F.bodies[cp].is_coroutine:
+                cs.add(cp)
+        callees[p] = cs
+    changed = True
+    while changed:
+        changed = False
+        for p, cs in callees.items():
+            for q in cs:
+                add = trans.get(q, set()) - trans[p]
+                if add:
+                    trans[p] |= add
+                    changed = True
+    n = 0
+    for p, b in sorted(F.bodies.items()):
+        for bi, kind, k, t in direct[p]:
+            if place_proj(t['dest']) or t.get('target') is None:
+                continue
+            n += 1
+            region = panics.guard_blocks(b, t['dest']['l'], [t['target']])
+            for x in sorted(region):
+                tt = b.blocks[x]['term']
+                if tt['k'] != 'call' or x == bi:
+                    continue
+                hits = []
+                nm = callee_name(tt) or ''
+                if panics.BORROW_CALL.search(nm):
+                    k2 = cell_key(b, tt['args'][0]) if tt['args'] else None
+                    kind2 = 'mut' if nm.endswith('borrow_mut') else 'shared'
+                    if k2 == k and 'mut' in (kind, kind2):
+                        hits.append('borrows it again here')
+                tgts = [q for q in F.call_targets(tt, expand_traits=False) if q in F.bodies]
+                # closures handed to this call run inside it
+                for a in tt.get('args', []):
+                    for l_ in Origin(b).of_operand(a):
+                        if l_[0] == 'agg' and l_[1] in F.bodies and F.bodies[l_[1]].d.get('kind') == 'Closure':
+                            tgts.append(l_[1])
+                for q in tgts:
+                    if F.bodies[q].is_coroutine:
+                        continue
+                    for k2, kind2 in trans.get(q, ()):
+                        if k2 == k and 'mut' in (kind, kind2):
+                            hits.append('calls %s, which borrows it again' % q)
+                            break
+                if hits:
+                    R.ob('C16.refcell', '%s|%s.%s|no-second-borrow-while-the-guard-lives|%s' % (re.sub(r'(::\{(closure|inl)#\d+\})+$', '', p), k[0].split('::')[-1], k[1], (nm.split('::')[-1] or '?')), False,
+                         'the %s guard on %s.%s taken here is still alive where the code %s: BorrowMutError panic on the path that reaches it' % (kind, k[0], k[1], hits[0]), b.loc(x))
+    R.ob('C16.refcell', 'no-nested-conflicting-borrow', True, 'examined %d RefCell borrows for a conflicting borrow of the same cell while the guard is alive' % n)
+    R.floor('C16.refcell', 'RefCell borrows examined', n, 40)
